@@ -109,11 +109,12 @@ __attribute__((noinline)) static Obs run_once(const Bytes &dg, unsigned char pv)
 }
 
 // ------------------------------------------------------------------------------------------------
+static bool g_tail = false, g_tail3s = false;
 static void judge(const Bytes &dg, const std::string &label, const Obs &o0, const Obs &o1) {
   Strict st = ref_strict(dg.data(), dg.size());
   std::string shape = st.shape; if (shape == "well-formed") shape = "well-formed-reply";
   if (!(o0 == o1) && label.compare(0, 4, "one:") == 0) { std::string s = "@INFO one: shape=" + st.shape + " paint00=" + o0.str() + " paintA5=" + o1.str() + "\n"; emit(s.c_str()); }
-  if (!(o0 == o1)) { shm->paint_diff++; violation("dns-" + shape + "-result-depends-on-uninitialised-memory", label, dg, "paint00 -> " + o0.str() + " | paintA5 -> " + o1.str()); outcome(label.substr(0, label.find(' ')) + " -> paint-dependent"); return; }
+  if (!(o0 == o1)) { shm->paint_diff++; violation("dns-" + shape + "-result-depends-on-uninitialised-memory", label, dg, "paint00 -> " + o0.str() + " | paint" + (g_tail && dg.size() >= 4 ? "01" : "A5") + " -> " + o1.str()); outcome(label.substr(0, label.find(' ')) + " -> paint-dependent"); return; }
   const Obs &o = o0;
   if (o.cb) shm->callbacks++; else shm->ignored++;
   std::string cls = "ignored";
@@ -147,7 +148,7 @@ static void judge(const Bytes &dg, const std::string &label, const Obs &o0, cons
 static const uint8_t kSub[] = {0, 1, 0x3f, 0x40, 0xc0, 0xff};
 struct Case { Bytes dg; std::string label; };
 static std::vector<Case> g_cases;           // struct mode
-static uint64_t g_ncases = 0; static int g_tail_max = 0; static bool g_tail = false, g_tail3s = false;
+static uint64_t g_ncases = 0; static int g_tail_max = 0;
 
 struct Base { const char *name; Bytes b; std::vector<size_t> ptrs; Obs expect; };
 static std::vector<Base> bases() {
@@ -232,7 +233,11 @@ static void *worker_thread(void *arg) {
     if (g_tail) { tail_case(i, dg, label); pd = &dg; pl = &label; } else { pd = &g_cases[i].dg; pl = &g_cases[i].label; }
     unsigned vg0 = VALGRIND_COUNT_ERRORS;
     shm->phase = 1; Obs o0 = run_once(*pd, 0x00);
-    shm->phase = 2; Obs o1 = run_once(*pd, 0xA5);
+    // second paint: 0xA5 (an uninitialised id/flags word then reads as "reply to the outstanding lookup"). In the tail sweep,
+    // datagrams that do carry id and flags use 0x01 instead: uninitialised record counts then read 257 instead of 42405,
+    // which keeps the 16.8 M-datagram sweep affordable (same defects, 160 times fewer garbage iterations).
+    unsigned char p2 = (g_tail && pd->size() >= 4) ? 0x01 : 0xA5;
+    shm->phase = 2; Obs o1 = run_once(*pd, p2);
     unsigned vg1 = VALGRIND_COUNT_ERRORS;
     shm->phase = 3;
     if (vg1 != vg0) { Strict sx = ref_strict(pd->data(), pd->size()); violation("dns-" + (sx.shape == "well-formed" ? std::string("well-formed-reply") : sx.shape) + "-valgrind-reports-invalid-or-uninitialised-value-use", *pl, *pd, std::to_string(vg1 - vg0) + " memcheck errors during the two deliveries"); outcome(pl->substr(0, pl->find(' ')) + " -> memcheck-error"); }
@@ -307,7 +312,7 @@ int main(int argc, char **argv) {
     else if (WIFSIGNALED(st)) effect = "crash-signal" + std::to_string(WTERMSIG(st));
     else effect = "crash-exit" + std::to_string(WEXITSTATUS(st));
     if (detail.empty()) { size_t f = err.find("    #"); for (int k = 0; k < 6 && f != std::string::npos; k++) { size_t e = err.find('\n', f); std::string ln = err.substr(f, e - f); if (ln.find("dns_request.cpp") != std::string::npos || ln.find("serializer.cpp") != std::string::npos) { detail = ln.substr(ln.find("#")); break; } f = err.find("    #", e); } }
-    char ph[48]; snprintf(ph, sizeof ph, "died in phase %d (1=paint00 2=paintA5 3=oracle)", shm->phase);
+    char ph[48]; snprintf(ph, sizeof ph, "died in phase %d (1=paint00 2=second paint 3=oracle)", shm->phase);
     violation("dns-" + shape + "-" + effect, label, dg, std::string(ph) + (detail.empty() ? "" : "; " + detail));
     outcome(label.substr(0, label.find(' ')) + " -> " + effect);
     shm->done++;
